@@ -21,6 +21,10 @@ type RuntimeOpts struct {
 	// OptionalPath sometimes binds a path variable to a proto3 `optional` field (a pointer in the
 	// generated Go struct) and to names protoc-gen-go spells differently from a naive CamelCase.
 	OptionalPath bool
+	// RepeatedQuery sometimes makes a query-bound field `repeated` (every occurrence of the
+	// parameter is one element). The unchanged Go client does not compile for such fields, so
+	// only server-side checks may ask for it.
+	RepeatedQuery bool
 }
 
 var urlFieldNames = []string{"user_id", "org", "page", "q", "name", "ratio", "flag", "item_id", "limit", "cursor", "since", "tenant_name"}
@@ -106,7 +110,11 @@ func GenRuntimeFile(r *R, idx int, o RuntimeOpts) *ir.Request {
 			if o.RenamedQuery && r.P(1, 2) {
 				qa.Name = Pick(r, []string{"q_", "p-", "x"}) + strings.ReplaceAll(fn, "_", "-")
 			}
-			in.Fields = append(in.Fields, &ir.Field{Name: fn, Number: no, Kind: Pick(r, queryKinds), Ann: ir.Ann{Query: qa}})
+			qf := &ir.Field{Name: fn, Number: no, Kind: Pick(r, queryKinds), Ann: ir.Ann{Query: qa}}
+			if o.RepeatedQuery && r.P(1, 3) {
+				qf.Card = "repeated"
+			}
+			in.Fields = append(in.Fields, qf)
 			no++
 		}
 		if verb == "POST" || verb == "PUT" || verb == "PATCH" {
